@@ -18,8 +18,8 @@ Proved here:
   values made of CHAR_SIMPLE_PATHNAME bytes, and dummy URL + `set_pathname` + `get_pathname` through the aggregator's
   setter theorem of C03) whenever the dummy URL and the result fit the configured maximum length; the shortcuts of
   `canonicalize_hostname` and `canonicalize_protocol` (their slow routes are compositions of models proved in C01 / C03:
-  `protocol_slow_route` states the composition for the protocol; the hostname's slow route is compared by the
-  correspondence run only, because the host setter theorem does not state the returned flag).
+  `protocol_slow_route` states the composition for the protocol, `canonicalize_hostname_is_standard_partial` follows the
+  hostname's slow route through the aggregator's host setter).
 Decided on the implementation (checks/props/c15.py): for generated literal component values the constructed pattern's
 component string equals the canonical form computed by the Lean Spec of the URL parser/setters, construction fails exactly
 when that canonicalisation fails, default-port elision and base-URL inheritance agree with the URL parser, and the
@@ -155,6 +155,31 @@ theorem canonicalize_hostname_shortcut_partial (idna : Idna) (v : Bytes) (hne : 
     (h4 : AdaVerif.Model.HostKernels.isIpv4 v = false) (hid : HP.IdnaAt idna v)
     (hxn : (splitOn 0x2E v).any startsWithXn = true → idna.toAscii v = some (v.map toLowerByte)) :
     Spec.Pattern.canonHostname idna v = some v := PC.hostname_fast idna v hne hs h4 hid hxn
+
+open AdaVerif.Model.PatternCanon AdaVerif.Lemmas in
+/-- **`canonicalize_hostname` on both routes** is the Standard's hostname callback (hostname state with a state override on a
+    special URL record): the shortcut, and "https://dummy.test" + `set_hostname` + `get_hostname` (the aggregator's host
+    setter on the editor layer of C07, `parse_host` of C10) - same failures (a ':' outside brackets, an empty host, a host the
+    host parser refuses), same serialised host.  `partial`: IDNA is a parameter (`IdnaAt`, and `hxn` for ACE labels on the
+    shortcut), the host setters' bracket condition, and a configured maximum length that admits the dummy URL and the result -/
+theorem canonicalize_hostname_is_standard_partial (idna : Idna) (L : Nat) (v : Bytes) (hid : ∀ d, HP.IdnaAt idna d)
+    (hxn : (splitOn 0x2E v).any startsWithXn = true → idna.toAscii v = some (v.map toLowerByte))
+    (hclean : HS.bracketClean true false (stripTN (v.takeWhile (· != 0x23))) = true)
+    (hL : 19 ≤ L)
+    (hfit : ∀ h, hostParse idna ((stripTN v).takeWhile (fun b => !Spec.Pattern.isHostTerminator b)) false = some h →
+      (AdaVerif.Model.Agg.layout (AggL.ofUrl { PC.uDummy with host := some h })).buf.length ≤ L) :
+    canonicalizeHostname idna L v = Spec.Pattern.canonHostname idna v := by
+  by_cases hne : v = []
+  · subst hne; rfl
+  · unfold canonicalizeHostname
+    have he : v.isEmpty = false := FS.isEmpty_false_of_ne hne
+    simp only [he, Bool.false_eq_true, ↓reduceIte]
+    by_cases hf : (v.all (hasFlag 2) && !AdaVerif.Model.HostKernels.isIpv4 v) = true
+    · simp only [hf, ↓reduceIte]
+      have hf' : v.all (hasFlag 2) = true ∧ AdaVerif.Model.HostKernels.isIpv4 v = false := by simpa using hf
+      exact (PC.hostname_fast idna v hne hf'.1 hf'.2 (hid v) hxn).symm
+    · simp only [hf, Bool.false_eq_true, ↓reduceIte]
+      exact PC.hostname_slow idna L v hne hid hclean hL hfit
 
 open AdaVerif.Model.PatternCanon AdaVerif.Lemmas in
 /-- the slow route of `canonicalize_protocol` - `ada::parse<url_aggregator>(value + "://dummy.test")`, `get_protocol()`
